@@ -14,6 +14,12 @@
 //	B  pairing: e(aP,bQ) = e(P,Q)^(ab) for every (a,b) of the non-negative scalar grid x
 //	   operand form x 2 base pairs, e = 1 exactly when ab = 0 mod n, e(P,Q) has order n,
 //	   additivity in both arguments over all scalar pairs.
+//	D  representations and aliasing (alias.go, pairreps.go): every operand representation the
+//	   API can produce (Unmarshal, ScalarBaseMult/ScalarMult incl. n-1, 1, -1 and other negative
+//	   scalars, Add outputs, Neg, Neg of Neg, made affine in place by Marshal) as operand of
+//	   Add/ScalarMult/inverse and, as full cross product G1 x G2 representations, of Pair
+//	   (bilinearity, e(P,-Q)e(P,Q)=1); every group operation with dst==a, dst==b, a==b the
+//	   same object, dst==a==b, equal values in distinct objects, and a dirty dst.
 //	C  encodings: Marshal = canonical model encoding; Unmarshal(Marshal) round trip; for 16
 //	   points per group every encoding with a non-empty subset of coordinates replaced by
 //	   coordinate + k*p (k = 1..3 while < 2^256), coordinate+1, coordinate zeroed, all
@@ -74,18 +80,53 @@ type ops struct {
 	mMul  func(x []byte, k *big.Int) []byte
 	ident []byte
 
-	encA, encL [][]byte // encodings of k_i*base and (k_i-7)*base
-	enc7       []byte
+	alias aliasOps
+	order *big.Int
+	reps  []ctor // further cheap representations of element i (used as operands everywhere)
+
+	encA, encL, encN [][]byte // encodings of k_i*base, (k_i-7)*base and (n-k_i)*base
+	enc7             []byte
 }
 
 var formNames = []string{"affine/reduced (Unmarshal)", "jacobian/unreduced (output of Add)"}
 
+func (g *ops) nforms() int { return 2 + len(g.reps) }
+func (g *ops) formName(f int) string {
+	if f < 2 {
+		return formNames[f]
+	}
+	return g.reps[f-2].name
+}
+
 // mk returns a FRESH real element i (Marshal mutates its receiver, so nothing is shared).
 func (g *ops) mk(i, form int) any {
-	if form == 0 {
+	switch {
+	case form == 0:
 		return g.unm(g.encA[i])
+	case form == 1:
+		return g.add(g.unm(g.encL[i]), g.unm(g.enc7))
 	}
-	return g.add(g.unm(g.encL[i]), g.unm(g.enc7))
+	return g.reps[form-2].mk(i)
+}
+
+// stdReps are the representations every group can produce besides Unmarshal and Add
+// outputs: the verbatim copies made by ScalarMult(.,1) and ScalarMult(.,-1) of an affine
+// element, a computed element made affine in place by Marshal, and (where the group has
+// Neg) Neg of an affine and of a computed element and a double negation.
+func (g *ops) stdReps() {
+	minus1 := big.NewInt(-1)
+	g.reps = []ctor{
+		{"ScalarMult(affine,-1)", func(i int) any { return g.smul(g.unm(g.encN[i]), minus1) }},
+		{"ScalarMult(affine,1)", func(i int) any { return g.smul(g.unm(g.encA[i]), one) }},
+		{"made affine in place by Marshal", func(i int) any { e := g.mk(i, 1); g.enc(e); return e }},
+		{"ScalarMult(ScalarMult(affine,-1),-1)", func(i int) any { return g.smul(g.smul(g.unm(g.encA[i]), minus1), minus1) }},
+	}
+	if g.neg != nil {
+		g.reps = append(g.reps,
+			ctor{"Neg(affine)", func(i int) any { return g.neg(g.unm(g.encN[i])) }},
+			ctor{"Neg(output of Add of two Neg(affine))", func(i int) any { return g.neg(g.add(g.neg(g.unm(g.encL[i])), g.neg(g.unm(g.enc7)))) }},
+			ctor{"Neg(Neg(affine))", func(i int) any { return g.neg(g.neg(g.unm(g.encA[i]))) }})
+	}
 }
 
 func run(c *vf.Ctx) {
@@ -105,8 +146,8 @@ func run(c *vf.Ctx) {
 	}
 	g1genEnc := new(bn256.G1).ScalarBaseMult(one).Marshal()
 	if !bytes.Equal(g1genEnc, ref.G1Gen.Encode()) {
-		c.Violation("G1 generator is not (1,-2)", fmt.Sprintf("%x", g1genEnc))
-		return
+		// not fatal: the model has its own generator, the grids below say what exactly is off
+		c.Violation("G1: ScalarBaseMult(1).Marshal() is not the canonical encoding of the generator (1,-2)", fmt.Sprintf("%x", g1genEnc))
 	}
 	g2genEnc := new(bn256.G2).ScalarBaseMult(one).Marshal()
 	g2gen, ok := ref.DecodeG2(g2genEnc)
@@ -178,6 +219,12 @@ func run(c *vf.Ctx) {
 		mNeg:  func(x []byte) []byte { return decG1(x).Neg().Encode() },
 		mMul:  func(x []byte, k *big.Int) []byte { return decG1(x).Mul(k).Encode() },
 		ident: make([]byte, 64),
+		order: ref.N,
+		alias: aliasOps{
+			addInto:  func(d, a, b any) any { return d.(*bn256.G1).Add(a.(*bn256.G1), b.(*bn256.G1)) },
+			negInto:  func(d, a any) any { return d.(*bn256.G1).Neg(a.(*bn256.G1)) },
+			smulInto: func(d, a any, k *big.Int) any { return d.(*bn256.G1).ScalarMult(a.(*bn256.G1), k) },
+		},
 	}
 
 	// ---- G2 ops --------------------------------------------------------------------------
@@ -206,6 +253,11 @@ func run(c *vf.Ctx) {
 		mNeg:  func(x []byte) []byte { return decG2(x).Neg().Encode() },
 		mMul:  func(x []byte, k *big.Int) []byte { return decG2(x).Mul(k).Encode() },
 		ident: make([]byte, 128),
+		order: ref.N,
+		alias: aliasOps{
+			addInto:  func(d, a, b any) any { return d.(*bn256.G2).Add(a.(*bn256.G2), b.(*bn256.G2)) },
+			smulInto: func(d, a any, k *big.Int) any { return d.(*bn256.G2).ScalarMult(a.(*bn256.G2), k) },
+		},
 	}
 
 	// ---- GT ops --------------------------------------------------------------------------
@@ -248,12 +300,21 @@ func run(c *vf.Ctx) {
 		mNeg:  func(x []byte) []byte { return decGT(x).Pow(bi(-1)).Encode() },
 		mMul:  func(x []byte, k *big.Int) []byte { return decGT(x).Pow(k).Encode() },
 		ident: ref.Fp12One().Encode(),
+		order: ref.N,
+		alias: aliasOps{
+			addInto:  func(d, a, b any) any { return d.(*bn256.GT).Add(a.(*bn256.GT), b.(*bn256.GT)) },
+			negInto:  func(d, a any) any { return d.(*bn256.GT).Neg(a.(*bn256.GT)) },
+			smulInto: func(d, a any, k *big.Int) any { return d.(*bn256.GT).ScalarMult(a.(*bn256.GT), k) },
+		},
 	}
 
 	for _, g := range []*ops{g1, g2, gt} {
+		g.stdReps()
 		groupLaws(c, g, scalars)
+		aliasing(c, g)
 	}
 	pairing(c, scalars, g2gen, s1, s2)
+	pairingReps(c, g2gen, s1, s2)
 	encodings(c, g2gen)
 	randomElems(c, g2gen)
 }
@@ -277,20 +338,24 @@ func negClass(neg bool, group, what string) string {
 
 func groupLaws(c *vf.Ctx, g *ops, scalars []scalar) {
 	ne, nf, ns := len(g.elems), 2, len(scalars)
+	na := g.nforms() // all representations; nf = the two basic ones
 	// model tables
-	g.encA, g.encL = make([][]byte, ne), make([][]byte, ne)
+	g.encA, g.encL, g.encN = make([][]byte, ne), make([][]byte, ne), make([][]byte, ne)
 	g.enc7 = g.mBase(bi(7))
 	mulTab := make([][][]byte, ne) // model: scalars[s] * element i
 	for i := range mulTab {
 		mulTab[i] = make([][]byte, ns)
 	}
-	c.ParallelFor(2*ne+ne*ns, func(ix int) {
+	c.ParallelFor(3*ne+ne*ns, func(ix int) {
 		switch {
 		case ix < ne:
 			g.encA[ix] = g.mBase(g.elems[ix].k)
 		case ix < 2*ne:
 			g.encL[ix-ne] = g.mBase(sub(g.elems[ix-ne].k, bi(7)))
+		case ix < 3*ne:
+			g.encN[ix-2*ne] = g.mBase(sub(ref.N, g.elems[ix-2*ne].k))
 		default:
+			ix -= ne
 			i, s := (ix-2*ne)/ns, (ix-2*ne)%ns
 			mulTab[i][s] = g.mBase(mul(g.elems[i].k, scalars[s].k))
 		}
@@ -299,29 +364,29 @@ func groupLaws(c *vf.Ctx, g *ops, scalars []scalar) {
 		return
 	}
 	// 0. every construction of every element marshals to the model encoding; round trip
-	nx := nf + len(g.extra)
+	nx := na + len(g.extra)
 	c.ParallelFor(ne*nx, func(ix int) {
 		i, f := ix/nx, ix%nx
 		fname := ""
-		if f < nf {
-			fname = formNames[f]
+		if f < na {
+			fname = g.formName(f)
 		} else {
-			fname = g.extra[f-nf].name
+			fname = g.extra[f-na].name
 		}
 		what := fmt.Sprintf("%s element %s as %s", g.name, g.elems[i].name, fname)
 		protect(c, g.name+" construction/Marshal", what, func() {
 			c.Eval(1)
 			c.Nontrivial("elem|" + what)
 			var e any
-			if f < nf {
+			if f < na {
 				e = g.mk(i, f)
 			} else {
-				e = g.extra[f-nf].mk(i)
+				e = g.extra[f-na].mk(i)
 			}
 			got := g.enc(e)
 			if !bytes.Equal(got, g.encA[i]) {
 				cl := g.name + ": " + fname + " (or Marshal of it) differs from the model"
-				if g.name == "GT" && f >= nf+1 {
+				if g.name == "GT" && f >= na+1 {
 					cl = "pairing not bilinear: e(aP,bQ) != e(P,Q)^(ab)"
 				}
 				c.Violation(cl, map[string]any{"case": what, "got": vf.Hex8(got), "want": vf.Hex8(g.encA[i])})
@@ -336,9 +401,9 @@ func groupLaws(c *vf.Ctx, g *ops, scalars []scalar) {
 		})
 	})
 	// 1. Add: all ordered pairs x forms; model agreement, commutativity, operands unchanged
-	c.ParallelFor(ne*ne*nf*nf, func(ix int) {
-		i, j, fi, fj := ix/(ne*nf*nf), ix/(nf*nf)%ne, ix/nf%nf, ix%nf
-		what := fmt.Sprintf("%s Add(%s [%s], %s [%s])", g.name, g.elems[i].name, formNames[fi], g.elems[j].name, formNames[fj])
+	c.ParallelFor(ne*ne*na*na, func(ix int) {
+		i, j, fi, fj := ix/(ne*na*na), ix/(na*na)%ne, ix/na%na, ix%na
+		what := fmt.Sprintf("%s Add(%s [%s], %s [%s])", g.name, g.elems[i].name, g.formName(fi), g.elems[j].name, g.formName(fj))
 		protect(c, g.name+".Add", what, func() {
 			c.Eval(1)
 			c.Nontrivial("add|" + what)
@@ -376,8 +441,8 @@ func groupLaws(c *vf.Ctx, g *ops, scalars []scalar) {
 		protect(c, g.name+".Add", what, func() {
 			c.Eval(1)
 			c.Nontrivial("assoc|" + what)
-			l := g.enc(g.add(g.add(g.mk(i, 1), g.mk(j, (i+j)%nf)), g.mk(k, (i+j+k)%nf)))
-			r := g.enc(g.add(g.mk(i, (i+j+k+1)%nf), g.add(g.mk(j, (j+k)%nf), g.mk(k, 1))))
+			l := g.enc(g.add(g.add(g.mk(i, 1), g.mk(j, (i+j)%na)), g.mk(k, (i+j+k)%na)))
+			r := g.enc(g.add(g.mk(i, (i+j+k+1)%na), g.add(g.mk(j, (j+k)%na), g.mk(k, 1))))
 			want := g.mAdd(g.mAdd(g.encA[i], g.encA[j]), g.encA[k])
 			if !bytes.Equal(l, r) {
 				c.Violation(g.name+".Add not associative", what)
@@ -387,9 +452,9 @@ func groupLaws(c *vf.Ctx, g *ops, scalars []scalar) {
 		})
 	})
 	// 3. inverse
-	c.ParallelFor(ne*nf, func(ix int) {
-		i, f := ix/nf, ix%nf
-		what := fmt.Sprintf("%s inverse of %s [%s]", g.name, g.elems[i].name, formNames[f])
+	c.ParallelFor(ne*na, func(ix int) {
+		i, f := ix/na, ix%na
+		what := fmt.Sprintf("%s inverse of %s [%s]", g.name, g.elems[i].name, g.formName(f))
 		protect(c, g.name+" inverse", what, func() {
 			c.Eval(1)
 			c.Nontrivial("inv|" + what)
@@ -405,7 +470,7 @@ func groupLaws(c *vf.Ctx, g *ops, scalars []scalar) {
 			if got := g.enc(g.add(g.mk(i, f), inv)); !bytes.Equal(got, g.ident) {
 				c.Violation(g.name+": a + (-a) is not the identity", map[string]any{"case": what, "got": vf.Hex8(got)})
 			}
-			if got := g.enc(g.add(inv, g.mk(i, 1-f))); !bytes.Equal(got, g.ident) {
+			if got := g.enc(g.add(inv, g.mk(i, (f+1)%na))); !bytes.Equal(got, g.ident) {
 				c.Violation(g.name+": (-a) + a is not the identity", map[string]any{"case": what, "got": vf.Hex8(got)})
 			}
 		})
@@ -415,10 +480,14 @@ func groupLaws(c *vf.Ctx, g *ops, scalars []scalar) {
 	for i := range realMul {
 		realMul[i] = make([][]byte, ns)
 	}
-	c.ParallelFor(ne*nf*ns, func(ix int) {
-		i, f, s := ix/(nf*ns), ix/ns%nf, ix%ns
+	smallScalar := map[string]bool{"0": true, "1": true, "2": true, "n-1": true, "-1": true, "-2": true, "seed64.0": true}
+	c.ParallelFor(ne*na*ns, func(ix int) {
+		i, f, s := ix/(na*ns), ix/ns%na, ix%ns
+		if f >= nf && !smallScalar[scalars[s].name] {
+			return // the further representations get the scalar subset {0,1,2,n-1,-1,-2,one seeded 64-bit}
+		}
 		k := scalars[s].k
-		what := fmt.Sprintf("%s ScalarMult(%s [%s], %s)", g.name, g.elems[i].name, formNames[f], scalars[s].name)
+		what := fmt.Sprintf("%s ScalarMult(%s [%s], %s)", g.name, g.elems[i].name, g.formName(f), scalars[s].name)
 		protect(c, g.name+".ScalarMult", what, func() {
 			c.Eval(1)
 			c.Nontrivial("smul|" + what)
